@@ -36,11 +36,19 @@ Round 4: the operations `inst` (plain x86 instruction: `ensure_space(16)` + byte
 * `builder_answer_refines_spec`  any other answer is the failure-free effect (tolerance: an inline comment that cannot be
                             duplicated is dropped, the instruction node is still added)
 * `builder_oom_consumes_fault`, `builder_never_corrupt`
+Round 5: BaseCompiler (Model/FaultCompiler: `new_virt_reg`, `add_func` = `new_func_node` + linking, `invoke`, `_emit`, `end_func`):
+`compiler_fail_atomic_exact` (nodes, cursor, registers, open function untouched; only `add_func` may use up label ids, at most
+two), `compiler_answer_refines_spec` (tolerance: a long register name that cannot be copied is dropped),
+`compiler_oom_consumes_fault`, `compiler_never_corrupt`; and `JitAllocator::alloc` on C09's allocator model (Model/FaultJit):
+`jit_alloc_nofault_is_c09`, `jit_alloc_fail_atomic` (no resource left, no block inserted, every block keeps bit vectors /
+accounting / flags, pools and counters untouched).
 -/
 import AsmjitVerif.Lemmas.FaultInv
 import AsmjitVerif.Lemmas.FaultPool
 import AsmjitVerif.Lemmas.FaultMore
 import AsmjitVerif.Lemmas.FaultBuilder
+import AsmjitVerif.Lemmas.FaultCompiler
+import AsmjitVerif.Lemmas.FaultJit
 namespace AsmjitVerif.Fault
 open AsmjitVerif
 
@@ -229,6 +237,47 @@ theorem builder_never_corrupt (ops : List FaultBuilder.BOp) (o : Oracle) (hlen :
 /-- a failed `new_label()` that used up a label id; a dropped inline comment -/
 example : (FaultBuilder.bstep .newLabel [false, true] {}).2.2 = .oom ∧ (FaultBuilder.bstep .newLabel [false, true] {}).2.1.v.labelCount = 1 := by decide
 example : (FaultBuilder.bstep (.emit 1 true) [false, true] {}).2.1.v.nodes = [.section 0, .inst 1 false] := by decide
+
+/-! ## BaseCompiler -/
+
+theorem compiler_fail_atomic_exact (op : FaultCompiler.COp) (o o' : Oracle) (s s' : FaultCompiler.CSt)
+    (h : FaultCompiler.cstep op o s = (o', s', .oom)) :
+    FaultCompiler.shape s'.v = FaultCompiler.shape s.v ∧ s.v.labelCount ≤ s'.v.labelCount ∧
+    s'.v.labelCount ≤ s.v.labelCount + 2 ∧ ((∀ n, op ≠ .addFunc n) → s'.v = s.v) :=
+  FaultCompiler.cstep_oom_exact op o o' s s' h
+
+theorem compiler_answer_refines_spec (op : FaultCompiler.COp) (o o' : Oracle) (s s' : FaultCompiler.CSt) (e : Err)
+    (h : FaultCompiler.cstep op o s = (o', s', e)) (he : e ≠ .oom) :
+    (s'.v, e) = FaultCompiler.cspec op s.v ∨
+    (op = .newReg true ∧ e = .ok ∧ s'.v = { s.v with regs := s.v.regs ++ [false] }) :=
+  FaultCompiler.cstep_ref op o o' s s' e h he
+
+theorem compiler_oom_consumes_fault (op : FaultCompiler.COp) (o o' : Oracle) (s s' : FaultCompiler.CSt) (e : Err)
+    (h : FaultCompiler.cstep op o s = (o', s', e)) : faults o' ≤ faults o ∧ (e = .oom → faults o' < faults o) :=
+  FaultCompiler.cstep_faults op o o' s s' e h
+
+theorem compiler_never_corrupt (ops : List FaultCompiler.COp) (o : Oracle) (hlen : ops.length ≤ 2 ^ 38) :
+    FaultCompiler.CInv (FaultCompiler.crun ops o {}).1 :=
+  FaultCompiler.crun_inv ops o {} (by unfold FaultCompiler.CInv; decide) (by simp; omega) (by simp; omega)
+
+/-- a failed `add_func` whose exit label was registered (its `_label_nodes.resize_grow` failed): one label id used up, no node -/
+example : (FaultCompiler.cstep (.addFunc 2) [false, false, false, true] {}).2.2 = .oom ∧
+    (FaultCompiler.cstep (.addFunc 2) [false, false, false, true] {}).2.1.v = { ({} : FaultCompiler.CView) with labelCount := 1 } := by decide
+
+/-! ## JitAllocator::alloc on C09's model -/
+
+theorem jit_alloc_nofault_is_c09 (a : JitAlloc.Alloc) (res : FaultMore.Res) (reqSize : Nat) :
+    (FaultJit.allocF [] a res reqSize).1 = [] ∧
+    ((FaultJit.allocF [] a res reqSize).2.1, (FaultJit.allocF [] a res reqSize).2.2.2) = a.alloc reqSize :=
+  FaultJit.allocF_nofault a res reqSize
+
+/-- `jit_alloc_fail_atomic`: `alloc` answered kOutOfMemory because the new block could not be obtained: no resource is left, no
+block was inserted, every block keeps its bit vectors, accounting and flags, pools / counters / ids are untouched -/
+theorem jit_alloc_fail_atomic (o o' : Oracle) (a a' : JitAlloc.Alloc) (res res' : FaultMore.Res) (reqSize : Nat)
+    (h : FaultJit.allocF o a res reqSize = (o', a', res', .error JitAlloc.Err.OutOfMemory)) :
+    res' = res ∧ a'.blocks.map FaultJit.core = a.blocks.map FaultJit.core ∧ a'.pools = a.pools ∧
+    a'.allocCount = a.allocCount ∧ a'.nextId = a.nextId ∧ a'.cfg = a.cfg ∧ faults o' < faults o :=
+  FaultJit.allocF_fail_atomic o o' a a' res res' reqSize h
 
 -- non-vacuity
 /-- the second mmap of a dual-mapped block fails: nothing is left (the first mapping is unmapped, the descriptor closed) -/
